@@ -12,6 +12,7 @@ random white space and random letter case.  `expected` is the post-order instruc
 documented reading in the canonical text form of the harness — an oracle that is independent of the
 Lean model.
 """
+import re
 
 WS = [b' ', b'  ', b'\t', b'\n', b' \r\n', b' \t ']
 
@@ -183,6 +184,19 @@ class ExprGen:
             self.stats['classes'][c] = self.stats['classes'].get(c, 0) + 1
             return ('bin', lv, name, self.expr(depth + 1), self.expr(depth + 1))
         if k == 'un':
+            if r.chance(1, 6) and 6 in p.bu and '-' in p.bu[6]:
+                # signs: in front of a literal, of a signed literal (a chain of signs), of something that is no literal
+                self.stats['un'] += 1
+                self.stats['classes']['un:sign'] = self.stats['classes'].get('un:sign', 0) + 1
+                inner = r.weighted([('num', 3), ('chain', 4), ('other', 2)])
+                if inner == 'num':
+                    return ('un', r.choice(['+', '-']), self.number())
+                if inner == 'chain':
+                    e = self.number()
+                    for _ in range(1 + r.below(3)):
+                        e = ('un', r.choice(['+', '-']), e)
+                    return ('un', r.choice(['+', '-']), e)
+                return ('un', r.choice(['+', '-']), self.expr(depth + 1))
             cands = [('u', 4)]
             if any(p.bu.values()):
                 cands.append(('bu', 3))
@@ -354,6 +368,14 @@ def expected(t):
             if t[1] == '-':
                 v = '-' + v
             return [b'P:' + v.encode()]
+        if t[1] in ('+', '-') and c[0] == 'un' and c[1] in ('+', '-'):
+            # a sign in front of a signed literal belongs to the literal as well
+            ce = expected(c)
+            if len(ce) == 1 and ce[0].startswith(b'P:') and re.fullmatch(rb'P:-?[0-9.e+]+', ce[0]):
+                v = ce[0][2:]
+                if t[1] == '-':
+                    v = v[1:] if v.startswith(b'-') else b'-' + v
+                return [b'P:' + v]
         return expected(c) + [b'u:' + t[1].lower().encode()]
     if k == 'bin':
         return expected(t[3]) + expected(t[4]) + [('b%d:' % t[1]).encode() + t[2].lower().encode()]
